@@ -118,7 +118,7 @@ func checkC03(c *Ctx, r *Report) {
 			x, ok := in.(*ssa.Call)
 			return ok && (calleeName(x) == "(*"+proxyPkg+".fetcher).fetchUpstream" || calleeName(x) == "(*"+proxyPkg+".fetcher).sendRequestToUpstream")
 		}
-		exits := walkFrom(pos{staleIf.Succs[staleSucc], 0}, isFetch, isReturn, nil)
+		exits := walkFrom(pos{staleIf.Succs[staleSucc], 0}, deepMarker(isFetch, 0), isReturn, nil)
 		var bad []string
 		for _, e := range exits {
 			ret := e.(*ssa.Return)
